@@ -63,7 +63,7 @@ def run(ctx):
         tree_cplx = any(d in T.CPLX for d in O.leaf_dts(t))
         if "sliced_drops_imag" in c01_present and O.has_kind(t, ("Sliced",)) and dx in T.CPLX and not tree_cplx:
             return False
-        if "kronsum_inplace_dtype" in c01_present and O.has_kind(t, ("KronSum",)) and len(set(O.leaf_dts(t) + [dx])) > 1:
+        if "kronsum_inplace_dtype" in c01_present and O.has_kind(t, ("KronSum",)) and tree_cplx and dx not in T.CPLX:
             return False
         if "sliced_index_array_cpu" in c01_present:
             bad = []
